@@ -610,6 +610,14 @@ ifns.stack = _stack
 
 
 ifns.zeros, ifns.eye, ifns.ones, ifns.update_array, ifns.concat, ifns.canonical, ifns.roll = _zeros, _eye, _ones, _update_array, _concat, _canonical, _roll
+def _linear_transpose(fun, primals, duals):
+    """dependency contract (see symfns.linear_transpose): for a linear fun, (fun(I))^T duals"""
+    n = primals.shape[0]
+    G = fun(IArr.eye(n, primals.dtype))
+    return G.T @ duals
+
+
+ifns.linear_transpose = _linear_transpose
 ifns.zeros_like = lambda x: IArr.zeros(x.shape, x.dtype)
 ifns.get_device = lambda x: None
 ifns.get_default_device = lambda: None
@@ -709,6 +717,6 @@ def make_abstract_op(label, rows, cols, dtype=np.float64):
             return eliminate(v, 0, rows, [Ent(e.conds, _mulv(e.val, a(v, r)), e.sums) for e in X.fn(c, v)])
         return IArr((X.shape[0], cols), fn, np.promote_types(dtype, X.dtype))
     op = LinearOperator(np.dtype(dtype), (rows, cols), matmat=matmat)
-    op.__dict__["_rmatmat"] = rmatmat
-    op.__dict__["_vc_entry"] = a
+    op._rmatmat = rmatmat          # through __setattr__, so that the attribute registry used by tree_flatten knows the field
+    op._vc_entry = a
     return op, a
